@@ -2092,10 +2092,10 @@ fn jobs_for(tier: &str, seed: u64) -> Vec<Job> {
         }
         jobs.push(Job { cfg, mode: Mode::Random { sequences, length, seed: rng.next_u64() } });
     }
-    // biggest jobs first
+    // the (cheap) random jobs first, then the enumerations, deepest first
     jobs.sort_by_key(|j| match j.mode {
-        Mode::Exhaustive { depth, .. } => (0, usize::MAX - depth),
-        Mode::Random { .. } => (1, 0),
+        Mode::Random { .. } => (0, 0),
+        Mode::Exhaustive { depth, .. } => (1, usize::MAX - depth),
     });
     jobs
 }
